@@ -90,6 +90,7 @@ def run_case(case, ctx):
                 c2 = cg.from_file(path, name=c.name, blackboxes=bbs)
             os.remove(path)
         else:
+            cg.io.circuit_to_verilog(c, behavioral=not case["behavioral"])
             text = cg.io.circuit_to_verilog(c, behavioral=case["behavioral"])
             c2 = cg.io.verilog_to_circuit(text, c.name, blackboxes=bbs)
     except Exception as e:
